@@ -147,6 +147,10 @@ class ClassRef(PE.Obj):
             return self.key.split(":")[1]
         return self.world.class_attr(self.key, name)
 
+    def same_object(self, other):
+        """`cls is other_cls` in interpreted code: one class, however many references the evaluator made"""
+        return isinstance(other, ClassRef) and other.key == self.key and other.world is self.world
+
     def __call__(self, *args, **kw):
         inst = Inst(self.world, self.key, {})
         init = self.world.class_attr(self.key, "__init__", bind=inst, default=None)
@@ -860,7 +864,10 @@ def fixed_layout(stmts, rng, features, hidden=None):
             pre = (sentinel or "") + (lab if si == 0 else " " * width)
             mark = col6 if si == 0 else rng.choice(FIX_MARKS)
             cut_in_literal = si > 0 and in_literal(text, a)
-            phys = pre + mark + ("" if cut_in_literal else (extra if si == 0 else " " * rng.randint(0, 4))) \
+            # the reader drops the trailing blanks of a physical line and joins the columns that remain (known F73: a blank that
+            # separates two words is then lost), so the continuation line brings the blank itself
+            word_gap = si > 0 and text[a - 1] == " "
+            phys = pre + mark + ("" if cut_in_literal else (extra if si == 0 else " " * rng.randint(1 if word_gap else 0, 4))) \
                 + ((name + ": ") if (si == 0 and name) else "") + seg
             if "trailing" in features and rng.random() < 0.4 and not (si < len(segs) - 1 and in_literal(text, b_)):
                 c = "! t%d %s" % (si, rng.choice(["", "it's", "'q'", "; y"]))
@@ -1424,6 +1431,8 @@ def errline_rule(m, rid, tier):
 
 
 F67_CASE = ["      program Main", "   ! a remark", "      integer Idx", "     &       , j", "      end program Main"]
+# a line that ends at a word boundary (its trailing blanks trimmed) and a continuation line whose text starts in column 7 (F73)
+F73_CASE = ["      program Main", "      integer", "     &Idx", "      end program Main"]
 
 
 def fixed_rule(m, rid, tier):
@@ -1497,6 +1506,20 @@ def fixed_rule(m, rid, tier):
                      % (fmt.get(run.world.ev, "mode"), [i[1] for i in got if i[0] == "Line"]))
         else:
             run.expect(case, items, got=got, only_lines=True)
+    # columns 7-72 of a short line are blank up to column 72: a line that ends with a word and a continuation that starts with one (F73)
+    items = [L("program Main", (1, 1)), L("integer Idx", (2, 3)), L("end program Main", (4, 4))]
+    case = Case("word-boundary-at-line-end", F73_CASE, items, {}, what="fixed form, a line that ends with a keyword (trailing blanks trimmed) and "
+                "a continuation line whose text starts in column 7")
+    got = run.read(case)
+    if got is not None:
+        texts = [" ".join(i[1].split()) for i in got if i[0] == "Line"]
+        r.instances += 1
+        ok = texts == [i[1] for i in items]
+        r.ob(ok, "word boundary at a line end: %r" % texts)
+        if not ok:
+            run.fail(case, "words", "the statements delivered are %r: the blank columns between the end of a short line and column 72 "
+                     "are dropped, so the last word of the line and the first word of its continuation line become one word "
+                     "(expected %r)" % (texts, [i[1] for i in items]))
     r.floor = 60
     return r
 
